@@ -18,6 +18,9 @@ Re-extracted from include/Cello.h and src/*.c on every run (called by gen_params
   cfg_ngc_blocks       (file, function) of every `#ifndef CELLO_NGC` block.
   cfg_cache_uses       (file, function) of every use of CELLO_CACHE / CELLO_CACHE_NUM in src/*.c.
   cfg_header_fields    fields of struct Header with the switch that guards each.
+  cfg_cache_wiring     (slot, class) of every Type_Cache_Entry line of Type_Instance (Type.c); emitted only when
+                       the macro still has the audited shape (read slot; if NULL: scan, store; return) and the
+                       lines sit inside `#if CELLO_CACHE == 1` followed by `return Type_Scan(self, cls);`.
   cfg_Array_*_norm / cfg_Array_*_guard   index normalisation and bounds test of the five Array functions
                        with a CELLO_BOUND_CHECK block, as Gallina functions over Z (model: coq/Config.v).
   cfg_bound_guards     (function, normalisation kind, guard kind) for every BOUND block (Array, List, Tuple, Table).
@@ -366,6 +369,21 @@ def generate(repo, emit, src, func_body):
     emit('cfg_header_fields', None if not fields else
          'Definition cfg_header_fields : list (string * string) := [%s]%%string.   (* field, guarding switch *)'
          % '; '.join('(%s, %s)' % (_coq_str(a), _coq_str(b)) for a, b in fields))
+
+    # ---------------------------------------------------------------- cache wiring
+    ty = src('src/Type.c')
+    mac = re.search(r'#define\s+Type_Cache_Entry\(i,\s*lit\)((?:[^\n]*\\\n)*[^\n]*)', ty)
+    shape = re.sub(r'[\s\\]+', '', mac.group(1)) if mac else ''
+    want_shape = 'if(clsislit){varinst=((var*)self)[i];if(instisNULL){inst=Type_Scan(self,lit);((var*)self)[i]=inst;}returninst;}'
+    body = func_body(ty, r'static\s+var\s+Type_Instance\s*\(\s*var\s+self\s*,\s*var\s+cls\s*\)\s*\{')
+    wiring = None
+    if body and shape == want_shape:
+        m2 = re.fullmatch(r'\{\s*#if\s+CELLO_CACHE\s*==\s*1\s*((?:Type_Cache_Entry\(\s*\d+\s*,\s*\w+\s*\);\s*)+)#endif\s*return\s+Type_Scan\(self,\s*cls\);\s*\}', body.strip())
+        if m2:
+            wiring = [(int(a), b) for a, b in re.findall(r'Type_Cache_Entry\(\s*(\d+)\s*,\s*(\w+)\s*\)', m2.group(1))]
+    emit('cfg_cache_wiring', None if not wiring else
+         'Definition cfg_cache_wiring : list (nat * string) := [%s]%%string.   (* Type_Cache_Entry(slot, Class) lines of Type_Instance *)'
+         % '; '.join('(%d, %s)' % (a, _coq_str(b)) for a, b in wiring))
 
     # ---------------------------------------------------------------- bound guards
     okb = bool(bounds) and all(nk is not None and gk is not None for _, nk, gk in bounds)
